@@ -245,11 +245,11 @@ Qed.
 (* ... hence a problem object that could be constructed at all (the harness' bypass switch off) has a
    target range inside the target data: "fit ranges that exceed the target's size are rejected
    before optimisation starts" *)
-Lemma coded_model_fit_inside : forall c sims,
+Lemma coded_model_fit_inside : forall wc c sims,
   fc_bypass c = false ->
-  model_fit coded_checker coded_calls c sims <> OCtor -> target_inside c = true.
+  model_fit coded_checker coded_calls wc c sims <> OCtor -> target_inside c = true.
 Proof.
-  intros c sims Hb H. unfold model_fit in H. rewrite Hb in H.
+  intros wc c sims Hb H. unfold model_fit in H. rewrite Hb in H.
   destruct (ctor_check coded_checker coded_calls c sims) eqn:E.
   - apply (coded_ctor_inside c sims E).
   - destruct (fc_trng c); exfalso; apply H; reflexivity.
